@@ -378,6 +378,9 @@ def c14_streams(tier, rng):
         Stream("random", "adapt", gens.rand_adapt(rng, ALL_KINDS, n), adapt_nontriv, False,
                "%d seeded random histories with single polls interleaved after arbitrary events, ends of source / limit stream" % n,
                adapt_hist, oracles={"reg"}, project=proj_adapt("trace")),
+        Stream("quiet-bursts", "adapt", gens.adapt_quiet_bursts(), adapt_nontriv, True,
+               "head / tail / skip / filter / filter_map: a run of 1, 2, 31..34, 63..66, 130 source updates that map to nothing, all available within ONE poll (as single items and as one batch), then one poll or a drain, then a visible update: the loop must keep polling the inner stream until that answers Pending, however long the run",
+               adapt_hist, oracles={"reg"}, project=proj_adapt("trace")),
         Stream("chains", "chain", gens.chain_cases(rng, True, 60 if q else 1500, 4 if q else 30),
                lambda c, o: " ok:reg=" in o, False,
                "two- and three-stage chains (C12's generator: head/tail/skip in every flavour incl. by-itself hand-over, filter, filter_map; unbatched and batched): after every full drain that ends Pending, the source stream and every limit/count stream of the stack must hold the waker of that poll (will_wake)",
